@@ -1,6 +1,7 @@
 package main
 
 import (
+	"go/token"
 	"go/types"
 	"golang.org/x/tools/go/ssa"
 	"strings"
@@ -230,6 +231,90 @@ func runC11(c *Ctx) {
 			}
 		}
 		c.Check(okOne, "R5.ownreply", "Forward|request write and reply read in one critical section", w.FnPos(fwd), "one mu.Lock() dominates every use of the raw connection on Forward's tree, no release in between", "the raw exchange is not one critical section ("+why+"): another client's exchange can come between the request and its reply")
+	}
+
+	// ... and no read/write deadline is put on the upstream connection: a request that times out stays in flight, its
+	// late reply is read by the next operation, and every later caller gets the reply of the one before
+	{
+		set := map[ssa.Value]bool{}
+		var work []ssa.Value
+		push := func(v ssa.Value) {
+			if v != nil && !set[v] {
+				set[v] = true
+				work = append(work, v)
+			}
+		}
+		for _, fn := range w.RepoFuncs() {
+			for _, b := range fn.Blocks {
+				for _, ins := range b.Instrs {
+					switch x := ins.(type) {
+					case *ssa.UnOp:
+						if fa, ok := x.X.(*ssa.FieldAddr); ok && x.Op == token.MUL && isFieldOf(fa.X.Type(), m.Owner(m.fConn), m.fConn, fa.Field) {
+							push(x)
+						}
+					case *ssa.Field:
+						if isFieldOf(x.X.Type(), m.Owner(m.fConn), m.fConn, x.Field) {
+							push(x)
+						}
+					}
+				}
+			}
+		}
+		nConn := len(work)
+		nDl := 0
+		for len(work) > 0 {
+			v := work[len(work)-1]
+			work = work[:len(work)-1]
+			refs := v.Referrers()
+			if refs == nil {
+				continue
+			}
+			for _, r := range *refs {
+				switch u := r.(type) {
+				case *ssa.TypeAssert:
+					push(u)
+				case *ssa.Extract:
+					if u.Index == 0 {
+						push(u)
+					}
+				case *ssa.ChangeInterface:
+					push(u)
+				case *ssa.MakeInterface:
+					push(u)
+				case *ssa.ChangeType:
+					push(u)
+				case *ssa.Phi:
+					push(u)
+				case ssa.CallInstruction:
+					cm := u.Common()
+					if cm.IsInvoke() {
+						if cm.Value == v && strings.HasSuffix(cm.Method.Name(), "Deadline") {
+							nDl++
+							c.Bad("R5.ownreply", shortFn(u.Parent())+"|"+cm.Method.Name()+" on the upstream connection", w.Pos(u.Pos()), "a deadline on the shared upstream connection: an exchange that times out leaves its request in flight and the late reply is handed to the next caller")
+						}
+						continue
+					}
+					if callee := cm.StaticCallee(); callee != nil && len(callee.Blocks) > 0 {
+						if strings.HasSuffix(callee.Name(), "Deadline") && len(cm.Args) > 0 && cm.Args[0] == v {
+							nDl++
+							c.Bad("R5.ownreply", shortFn(u.Parent())+"|"+callee.Name()+" on the upstream connection", w.Pos(u.Pos()), "a deadline on the shared upstream connection: an exchange that times out leaves its request in flight and the late reply is handed to the next caller")
+							continue
+						}
+						if w.InRepoFn(callee) {
+							for k, a := range cm.Args {
+								if a == v && k < len(callee.Params) {
+									push(callee.Params[k])
+								}
+							}
+						}
+					}
+				}
+			}
+		}
+		if nDl == 0 && nConn > 0 {
+			c.Ok("R5.ownreply", "Server|no deadline on the upstream connection", w.Pos(m.Server.Obj().Pos()), itoa(nConn)+" reads of the connection field followed through assertions and helpers")
+		}
+		c.Floor("R5.ownreply", nConn, 1, "reads of the upstream connection field")
 	}
 
 	// R4: yubiagent client
